@@ -199,6 +199,11 @@ impl VerifEq for TypeLayout {
     #[verifier::external_body] fn eq_complex(&self, other: &TypeLayout, f: &Flags) -> (r: bool) ensures r == compat_f(*self, *other, *f) { unimplemented!() }
 }
 #[verifier::external_body] pub fn opt_ctx(o: Option<TypeLayout>) -> (r: Result<TypeLayout, VErr>) ensures r is Ok <==> o is Some, r is Ok ==> Some(r->Ok_0) == o { unimplemented!() }
+// "this type (aliases / optional / captured wrappers looked through) is a module" -- abstract kind test
+pub uninterp spec fn is_module_ty(t: TypeLayout) -> bool;
+#[verifier::external_body] pub fn type_is_module(t: &TypeLayout) -> (r: bool) ensures r == is_module_ty(*t) { unimplemented!() }
+pub uninterp spec fn raw_is_module_ty(t: TypeLayout) -> bool;           // the same test on the type as written: NOT known to see every module value
+#[verifier::external_body] pub fn raw_type_is_module(t: &TypeLayout) -> (r: bool) ensures r == raw_is_module_ty(*t) { unimplemented!() }
 """
 
 
@@ -222,6 +227,8 @@ def build_for_type(repo):
         Rule("R6", "rhs . for_type ( flags ) ?", "expr_for_type ( rhs , flags ) ?", why="recursive type query abstract"),
         Rule("R1", "index @ Expr :: Index { .. }", "Expr :: Index { .. }", why="binding of the scrutinee itself"),
         Rule("R1", "lookup @ Expr :: DotLookup", "Expr :: DotLookup", why="binding of the scrutinee itself"),
+        Rule("R6", "matches ! ( object . for_type ( flags ) ? . disregard_distractors ( false ) , TypeLayout :: Module ( .. ) )", "type_is_module ( & expr_for_type ( & * * object , flags ) ? )", why="kind test on the (unwrapped) type of the object: abstract predicate"),
+        Rule("R6", "matches ! ( object . for_type ( flags ) ? , TypeLayout :: Module ( .. ) )", "raw_type_is_module ( & expr_for_type ( & * * object , flags ) ? )", why="kind test on the type as written: a different abstract predicate"),
         Rule("R1", "index . root_ident ( )", "lhs . root_ident ( )", why="`index @ pattern` names the scrutinee"),
         Rule("R1", "lookup . root_ident ( )", "lhs . root_ident ( )", why="`lookup @ pattern` names the scrutinee"),
         Rule("R6", "lhs . get_output_type ( & rhs , op , flags ) . with_context ( $$c ) ?", "opt_ctx ( get_output_type ( & lhs , & rhs , op , flags ) ) ?", why="operator table abstract; context text dropped"),
@@ -270,6 +277,8 @@ pub fn for_type_binop(lhs: &Expr, op: &Op, rhs: &Expr, flags: &Flags) -> (r: Res
         (r is Ok && op_writes(*op) && lhs is Value && lhs->Value_0 is Ident) ==> !lhs->Value_0->Ident_0.read_only,
         // ... including an element or field reached through a const variable
         (r is Ok && op_assigns(*op) && root(*lhs) is Some) ==> !root(*lhs)->Some_0.read_only,
+        // ... and a member of a MODULE, whatever (non-const) name the module value is reached through: `x = m; x.k += 3` must not change m's export
+        (r is Ok && op_assigns(*op) && lhs is DotLookup) ==> !(expr_type(&*lhs->DotLookup_lhs, flags) is Some && is_module_ty(expr_type(&*lhs->DotLookup_lhs, flags)->Some_0)),
         // C03 / C16: a compound assignment is accepted only onto an assignable place: a name, an element or a field (code generation
         // has no case for anything else and would panic)
         (r is Ok && op_assigns(*op)) ==> (lhs is Value && lhs->Value_0 is Ident) || lhs is Index || lhs is DotLookup,
